@@ -150,6 +150,13 @@ func DecodeFrom(reader io.Reader) (*Pointer, io.Reader, error) {
 		return EmptyPointer(), contents, nil
 	}
 
+	if len(buf) >= blobSizeCutoff {
+		// Pointers are always smaller than the cutoff, so input that
+		// fills the buffer is content, even if its first bytes happen
+		// to look like a pointer followed by white space.
+		return nil, contents, errors.NewNotAPointerError(errors.New(tr.Tr.Get("size exceeds Git LFS pointer size cutoff")))
+	}
+
 	p, err := decodeKV(bytes.TrimSpace(buf))
 	if err == nil && p != nil {
 		p.Canonical = p.Encoded() == string(buf)
